@@ -164,7 +164,7 @@ PROPS = {
     },
     "C04": {
         "proofs": ["ZlProofs.Props.C04"],
-        "corr": ["framework"],
+        "corr": ["framework", "der"],  # der: also carries the CA-classification ops (util/ca.go)
         "search": [("sweep", "C04")],
         "trusted_base": TB_COMMON,
         "assumptions": ["the scope predicates are modelled over a parsed view (EKU OIDs, policy OIDs, rfc822 names, otherNames)"],
